@@ -224,6 +224,88 @@ def base_formats(fp):
     return out
 
 
+def select_oracle(a, b, is_min: bool):
+    """IEEE 754-2019 minimum / maximum on denotations: a NaN operand gives NaN, -0 < +0"""
+    if a[0] == 'nan' or b[0] == 'nan':
+        return ('nan',)
+
+    def key(v):
+        if v[0] == 'inf':
+            return (-2 if v[1] else 2, 0)
+        if v[2] == 0:
+            return (0, -1 if v[1] else 1)
+        return (-1 if v[1] else 1, -v[2] if v[1] else v[2])
+
+    # order: -inf < negatives < -0 < +0 < positives < +inf
+    ka, kb = key(a), key(b)
+    lo, hi = (a, b) if ka <= kb else (b, a)
+    return lo if is_min else hi
+
+
+def select_monitor(res: Result, fp, rng, i, n, quick):
+    """exact_select (the format of min / max) over pairs and triples of concrete formats and value sets: whichever operand IEEE
+    minimum / maximum returns must be a member of the result"""
+    from fpy2.analysis.format_infer import AbstractFormat, exact_select
+    from fpy2.analysis.format_infer.analysis import SetFormat, Special, NEG_ZERO
+    operands = []          # (text, bound, members)
+    for text in SMALL_CTXS + ['fp.SINT8', 'fp.UINT8', 'fp.FixedContext(True, -3, 6)']:
+        try:
+            fmt = eval(text, {'fp': fp}).format()
+            operands.append((text, fmt, af_members(AbstractFormat.from_format(fmt))))
+        except Exception:
+            continue
+    F = Fraction
+    sets = [{Special.NEG_INF}, {Special.POS_INF}, {Special.NEG_INF, F(1)}, {Special.POS_INF, F(-2), F(0)}, {Special.NAN, F(3)}, {NEG_ZERO, F(0)}, {NEG_ZERO},
+            {F(-3), F(5)}, {F(1, 2)}, {F(0)}, {F(-1, 4), F(-8)}, {Special.NEG_INF, Special.POS_INF}, {F(100)}, {F(-100), Special.NAN}, {F(7), NEG_ZERO, Special.NEG_INF}]
+
+    def den(v):
+        if v is Special.NAN:
+            return ('nan',)
+        if v is Special.POS_INF:
+            return ('inf', False)
+        if v is Special.NEG_INF:
+            return ('inf', True)
+        if v == NEG_ZERO and not isinstance(v, Fraction):
+            return ('fin', True, Fraction(0))
+        return ('fin', v < 0, abs(v))
+    for vs in sets:
+        operands.append(('{' + ', '.join(sorted(str(v) for v in vs)) + '}', SetFormat(frozenset(vs)), [den(v) for v in vs]))
+    combos = list(itertools.product(range(len(operands)), repeat=2))
+    trip = list(itertools.product(range(len(operands)), repeat=3))
+    random.Random(77).shuffle(trip)
+    combos = [c for c in combos] + trip[:(600 if quick else 6000)]
+    from ..oracle.describe import val_str
+    for c in combos[i::n]:
+        ops = [operands[k] for k in c]
+        for is_min in (True, False):
+            try:
+                R = exact_select([o[1] for o in ops], is_min=is_min)
+            except Exception as e:
+                res.count(f'operator_raised:exact_select:{type(e).__name__}')
+                continue
+            if R is None:
+                res.count('exact_select_declined')
+                continue
+            res.count('exact_select_formats')
+            top = af_is_top(R)
+            bad = None
+            for vals in itertools.product(*[o[2] for o in ops]):
+                r = vals[0]
+                for v in vals[1:]:
+                    r = select_oracle(r, v, is_min)
+                res.evaluations += 1
+                res.nontrivial += 0 if top else 1
+                if not af_member(R, r):
+                    bad = (vals, r)
+                    break
+            if bad:
+                vals, r = bad
+                res.violate({'property': PROP, 'part': 'abstract arithmetic', 'operation': 'min' if is_min else 'max', 'operands': [o[0] for o in ops],
+                             'values': [val_str(v) for v in vals], 'exact_result': val_str(r), 'result_format': str(R),
+                             'problem': 'the operand that min / max returns is outside the format exact_select gives the selection',
+                             'mechanism': {'part': 'abstract_arith', 'op': 'min' if is_min else 'max', 'kind': 'neg_zero' if (r[0] == 'fin' and r[2] == 0 and r[1]) else 'value'}})
+
+
 def arith_monitor(res: Result, fp, rng, i, n, quick):
     from fpy2.analysis.format_infer import AbstractFormat, round_is_identity
     from ..oracle import arith, rnd
@@ -725,6 +807,7 @@ def shard(i: int, n: int, tier: str, seed: int) -> Result:
     rng = random.Random(seed * 31337 + i)
     quick = tier == 'quick'
     arith_monitor(res, fp, rng, i, n, quick)
+    select_monitor(res, fp, rng, i, n, quick)
     trace_monitor(res, fp, rng, i, n, quick)
     return res
 
